@@ -5,7 +5,7 @@ design      : PathPattern.tla -- declarative reference for interfaces/prompting/
               alternatives, collapses one-alternative groups; enumeration order of RenderAllVariants),
               NumVariants/Accepted (limit 1000), PPM(v, path) for a brace-less v (the trailing-'/' rules of
               PathPatternMatches around doublestar.Match v4.6.1 semantics), Valid(s) (scanner/parser),
-              RefMatch(p, path) == \\E v \\in Expand(p): PPM(v, path).
+              RefMatch(p, path) == there is v in Expand(p) with PPM(v, path).
               TLC checks laws on the reference (PathPattern_mc.cfg, one state per pattern): NumVariants =
               Len(Expand), optimize() is neutral w.r.t. the set of expansions, expansions are valid brace-less
               patterns, trailing-'/' rules, escapes.
